@@ -63,6 +63,12 @@ def run(ck, rng):
                         pre.append((tjoin(target, base + b"/" + nm + b"_d/deeper/f.txt"), "f"))
                 if rng.random() < 0.3:
                     pre.append((tjoin(target, b"unrelated_top"), "d"))
+        if rng.random() < 0.15:
+            # an EARLIER verify in the same process that fails with an I/O error part-way (its target is a regular file,
+            # or a name is too long for the OS): what it collected must not leak into the verify that follows
+            pre.append((b"plainfile", "f"))
+            ops = [rng.choice(["v,%s,%s,%s" % (strict, hx(b"plainfile"), hx(doc)),
+                               "v,%s,%s,%s" % (strict, hx(target), hx(b"- " + b"L" * 300 + b"\n  - x\n"))])] + ops
         # the target as an ABSOLUTE path, written uncleanly (trailing and doubled slashes, "/."): same verdict, same paths
         vtarget = target
         if target in (b"tgt", b"sub/tgt") and rng.random() < 0.2:
@@ -80,6 +86,24 @@ def run(ck, rng):
     impl, _ = run_impl(exe, cases)
     model = run_model(mcases)
     broken = None
+    # deeply nested directories in a process that may keep only a few files open (RLIMIT_NOFILE = 40): a tree just
+    # created by mkdir still verifies
+    def few_files():
+        import resource
+        resource.setrlimit(resource.RLIMIT_NOFILE, (40, 40))
+    deep = []
+    for depth in (30, 60, 120):
+        chain = [(d, b"n%d" % d) for d in range(1, depth + 1)]
+        ddoc = spell(chain, deep_spelling(chain))
+        deep.append("hist F,d:746774;m,0,-,746774,-,-,-,-,%s;v,1,746774,%s" % (hx(ddoc), hx(ddoc)))
+    dres, _ = run_impl(exe, deep, preexec_fn=few_files)
+    for c, got in zip(deep, dres):
+        ck.case(c[:300], True)
+        ck.count("scenario:deep_few_descriptors")
+        parts = got.split("|")
+        if len(parts) < 3 or not parts[1].startswith("ok") or not parts[2].startswith("ok"):
+            ck.violation({"property": "C08", "kind": "verify_exact", "class": "deep_few_descriptors", "case": c[:2000], "got": got[-300:],
+                          "why": "a freshly created chain of nested directories does not verify when only 40 files may be open: " + "|".join(x.split(" ")[0] for x in parts)})
     # the file-system root as target (the joined paths must be spelled as the directory walk spells them)
     fixed = [("hist v,0,2f,%s" % hx(b"- dev\n  - null\n"), "ok - -"),
              ("hist v,0,2f,%s" % hx(b"- dev\n  - null\n  - zz_no_such_entry_verif\n"), "err:verify:/" + hx(b"/dev/zz_no_such_entry_verif") + " - -"),
